@@ -251,6 +251,11 @@ pub struct PtSpec {
     /// 3 currency + TLV with a two-byte 1F16 and an error text (1F17), 4 TLV only.
     #[serde(default)]
     pub abort_extras: u8,
+    /// Currency code the terminal puts into its status informations (BMP 49) instead of the one the
+    /// request named - a terminal booking in its own currency. What the terminal reports must not
+    /// replace what the client was configured with.
+    #[serde(default)]
+    pub status_currency: Option<u16>,
 }
 
 // ---------------------------------------------------------------- state
@@ -408,7 +413,7 @@ impl PtShared {
         let mut s = rc::Status {
             result_code: Some(0),
             amount: Some(amount),
-            currency: Some(currency),
+            currency: Some(self.spec.status_currency.map(|c| c as u64).unwrap_or(currency)),
             trace: Some(digits(r, 999_999)),
             time: Some({
                 let (h, m, sec) = (r.below(24), r.below(60), r.below(60));
